@@ -6,11 +6,13 @@ set -u
 export GOFLAGS=-mod=mod GOPROXY=off GOSUMDB=off GOTOOLCHAIN=local
 P=$1; D=$2; shift 2
 CHECKS=${@:-$P}
+REPO=${REPO:-/repo}   # REPO=/tmp/ev/<k>/repo: a lane of tools/seedround_par.sh (evaluation only, never evidence)
 CHECK_SH=${CHECK_SH:-/verif/check.sh}   # CHECK_SH=/root/.vp/runs/<n>/verif/check.sh: an earlier snapshot of the suite
 if [ -z "${SKIPDEMO:-}" ]; then
 W=/tmp/sbv/$P-$$
 mkdir -p /tmp/sbv
-git -C /repo worktree add -q --detach $W HEAD || exit 3
+for try in 1 2 3 4 5 6; do git -C /repo worktree add -q --detach $W HEAD 2>/dev/null && break; sleep $((RANDOM % 3 + 1)); done
+[ -d $W ] || exit 3
 demodir=$(grep -o 'ops/opset13\|ops\b\|onnx' $D/notes.md 2>/dev/null | head -0)
 pkgline=$(grep -m1 '^package ' $D/demo_test.go | awk '{print $2}')
 case "$pkgline" in
@@ -38,10 +40,10 @@ echo "== demo WITH the change (must fail)"
 git -C /repo worktree remove --force $W
 fi
 echo "== my checks on /repo with the patch"
-git -C /repo apply $D/patch.diff || { echo "PATCH DOES NOT APPLY TO /repo"; exit 3; }
+git -C $REPO apply $D/patch.diff || { echo "PATCH DOES NOT APPLY TO /repo"; exit 3; }
 for c in $CHECKS; do
   out=$($CHECK_SH $c quick 2>&1); rc=$?
   echo "check $c exit=$rc"; echo "$out" | grep -v KNOWN | grep "VIOLATION\|signature=\|SUMMARY\|INCONCLUSIVE" | cut -c1-330 | head -8
 done
-git -C /repo checkout -- .
-git -C /repo status --short | head -3
+git -C $REPO checkout -- .
+git -C $REPO status --short | head -3
